@@ -8,7 +8,7 @@ EXPLANATION = ("C16: lock-region analysis over every body that touches SourceVie
                "(one critical section per decision, no check-then-act window); (R3) no panic-capable instruction is left "
                "undischarged while the guard is live (poisoning), (R3b) the slice at the progress counter is dominated by "
                "the finished test inside the same section; (R4) no call under the lock can re-acquire it; (R5) the state "
-               "is monotone (append-only cache, counter only advanced). The claim quantifies over all schedules because it "
+               "is monotone (append-only cache, counter only advanced); (R6) line_count forces complete indexing before it reads the cache length, so its answer does not depend on what other threads indexed before. The claim quantifies over all schedules because it "
                "is a statement about the code's locking discipline, not about sampled interleavings.")
 NOT_DECIDED = "nothing schedule-dependent once R1-R5 hold; std::sync::Mutex is the trusted base. Send/Sync is checked by the type-level witness in the thorough tier."
 TECHNIQUE = "static analysis: mutex guard live-range (lock-region) analysis over MIR + panic-site discharge inside the regions"
@@ -22,6 +22,8 @@ RULES = {
     "C16.R4b": lambda ctx: svrules.guards_stay_local(ctx, "C16.R4b"),
     "C16.R5b": lambda ctx: svrules.fresh_views(ctx, "C16.R5b"),
     "C16.R5": lambda ctx: svrules.r5_monotone(ctx, "C16.R5"),
+    # line_count's answer must not depend on what other threads cached before: it forces complete indexing first
+    "C16.R6": lambda ctx: svrules.c15_r3_iter(ctx, "C16.R6"),
 }
 
 
